@@ -7,6 +7,10 @@ CXX     := g++
 CXXFLAGS:= -std=c++17 -O2 -g -Wall -Wno-unused-function -Wno-missing-field-initializers -I$(REPO)/include -I$(REPO)/igzip -I$(REPO)/erasure_code -I$(REPO)/crc -I$(REPO)/raid -I$(REPO)/mem -Isim $(FLAVOUR_DEFS)
 SRCS    := $(wildcard sim/*.cc)
 OBJS    := $(patsubst sim/%.cc,$(B)/o/%.o,$(SRCS))
+ifeq ($(FLAVOUR),asan)
+CXXFLAGS += -fsanitize=address -fno-omit-frame-pointer
+SANLD := -fsanitize=address
+endif
 
 all: $(B)/isal-sim
 
@@ -18,7 +22,7 @@ $(B)/o/%.o: sim/%.cc $(wildcard sim/*.h) $(B)/lib.stamp
 	$(CXX) $(CXXFLAGS) -c $< -o $@
 
 $(B)/isal-sim: $(OBJS) $(B)/lib.stamp
-	$(CXX) -o $@ $(OBJS) -L$(B) -lisal_sim -Wl,-rpath,'$$ORIGIN' -lz -lpthread -ldl -rdynamic
+	$(CXX) $(SANLD) -o $@ $(OBJS) -L$(B) -lisal_sim -Wl,-rpath,'$$ORIGIN' -lz -lpthread -ldl -rdynamic
 
 $(B)/lib.stamp: lib
 
